@@ -8,6 +8,12 @@ use std::collections::BTreeMap;
 
 impl Rule {
     pub fn parse(input: &str) -> Result<Self, Error> {
+        #[cfg(reval_verif)]
+        if crate::verif::enabled() && !crate::verif::in_parse() {
+            let result = crate::verif::within_parse(|| Rule::parse(input));
+            crate::verif::record_parse_rule(input, &result);
+            return result;
+        }
         let mut comment_lines = input
             .lines()
             .filter_map(|line| line.trim_start().strip_prefix("//").map(str::trim));
